@@ -266,6 +266,25 @@ func GenTriple(r *Rand, o TreeOpts) (anc, alpha, beta *core.Entry) {
 		anc = GenRoot(r, so)
 		alpha, beta = anc, anc
 	}
+	if r.Chance(1, 5) {
+		// Both sides replace the same (preferably deep) directory of the
+		// ancestor by the same new content ("both modified same").
+		var dirs []string
+		for _, p := range Paths(anc) {
+			if e := Lookup(anc, p); e.Kind == core.EntryKind_Directory && len(e.Contents) > 0 {
+				dirs = append(dirs, p)
+			}
+		}
+		if len(dirs) > 0 {
+			p := dirs[r.Intn(len(dirs))]
+			v := GenLeaf(r, so)
+			if r.Chance(1, 3) {
+				v = nil
+			}
+			alpha, _ = Set(alpha, p, v)
+			beta, _ = Set(beta, p, v)
+		}
+	}
 	n := r.Intn(5)
 	for i := 0; i < n; i++ {
 		base := anc
